@@ -277,7 +277,7 @@ pub fn run_case(case: &Case) -> Result<(bool, Vec<&'static str>), Failure> {
     // a fresh process for every 8th case (by content)
     let mut h = std::collections::hash_map::DefaultHasher::new();
     serde_json::to_string(case).unwrap().hash(&mut h);
-    if h.finish() % 8 == 0 {
+    if h.finish() % 8 == 0 && std::env::var_os("VERIF_FUZZ_PROP").is_none() {
         let dir = verif_root().join("replays").join("C04");
         let _ = std::fs::create_dir_all(&dir);
         let file = dir.join(format!("child-{}-{:x}.json", std::process::id(), digest(&t1)));
@@ -331,6 +331,9 @@ pub fn run_case(case: &Case) -> Result<(bool, Vec<&'static str>), Failure> {
     if t1.log.windows(2).any(|w| w[0].1 == "twin-draw" && w[1].1 == "twin-draw" && w[0].0 == w[1].0 && w[0].2 == w[1].2 && w[0].3 != w[1].3) {
         labels.push("two-tasks-woken-at-the-same-instant");
     }
+    if case.seed == 0 || case.seed == u64::MAX {
+        labels.push("boundary-seed");
+    }
     if t1.log.iter().any(|r| r.1 == "emit-at-end") {
         labels.push("emission-during-tear-down");
     }
@@ -347,7 +350,7 @@ impl Prop for C04 {
          over an unbiased tokio::select! of two sleeps due at the same instant and the inbox, drawing random numbers, with 0..3 further \
          tasks per module that sleep until the very same instants and draw a number after each wake-up, optionally \
          shutting themselves down and restarting (new runtime, the task starts over); random start delays; generated \
-         Builder::seeded seed. Oracle (differential): the complete trace (time, module path, event kind, message ids, random values, select \
+         Builder::seeded seed (0, 1 and u64::MAX over-sampled). Oracle (differential): the complete trace (time, module path, event kind, message ids, random values, select \
          branches, forwarding choices) plus final time, event count and result must be identical for two runs in the same worker process \
          (with an unrelated simulation in between) and, for every 8th case, for a run in a freshly spawned process. Counted, not asserted: a \
          different seed changes the trace. Non-trivial iff the trace contains a random draw, an unbiased select decision and a message that \
@@ -363,7 +366,7 @@ impl Prop for C04 {
     fn plan(tier: Tier) -> Plan {
         Plan {
             shards: tier.pick(4, 16),
-            cases_per_shard: tier.pick(1_500, 6_000),
+            cases_per_shard: tier.pick(1_500, 18_000),
             watchdog: StdDuration::from_secs(tier.pick(300, 3600)),
         }
     }
@@ -378,7 +381,8 @@ impl Prop for C04 {
             }),
         ];
         (
-            any::<u64>(),
+            // boundary seeds as well: 0 and u64::MAX are seeds like any other
+            prop_oneof![6 => any::<u64>(), 1 => Just(0u64), 1 => Just(1u64), 1 => Just(u64::MAX)],
             proptest::collection::vec(kind, 2..=6),
             1u16..2000,
             0u16..3000,
